@@ -1,6 +1,8 @@
 import SamplyModel.Lemmas.FileCreationRetry
 import SamplyModel.Lemmas.DownloadWrite
 import SamplyModel.Lemmas.FileCreationAsync
+import SamplyModel.Lemmas.DownloadCompose
+import SamplyModel.Lemmas.FileCreationOnce
 /-!
 # C16 — cache files appear atomically: complete or not at all
 
@@ -424,3 +426,122 @@ theorem C16_async_join_on_drop_dest_stable (pl : Pid → Content) (s s' : FCA.St
 example : ((FCA.run true C16_payload FCA.State.init
     [.base (.step 0), .base (.step 0), .base (.step 0), .base (.step 0), .base (.step 0),
      .base (.step 0)]).map fun s => (s.inflight.length, s.partDisk)) = some (1, some [1]) := by decide
+
+
+/-! ## The download callback composed with the protocol (`DL` ∘ `FC`)
+
+`FC` abstracts a write callback as "append chunks of `pl p`; `Ok` only after the last one; `Err` anywhere".
+For the downloader's callback this is a theorem: with bytes as chunks (`FC.enc`) and
+`pl p = enc (DL.payload stream)`, every run of `DL.run` — any stream, any disk — is a run of `FC`. -/
+
+/-- **The download callback is a writer of the protocol model.** Entered with the temp file open
+(`writing i j 0`), whatever the stream delivers and whichever writes fail, the callback's effect on the
+temp file is `n` chunk writes of `FC` (`n` bytes of `p`'s payload = the bytes of the stream); if it returns
+`Ok` then `n` is the whole payload and the next `FC` step is "callback returned Ok" (`wroteOk`); otherwise
+`FC`'s `fail p` ("callback returned Err") is enabled. -/
+theorem C16_download_callback_is_fc_writer (env : DL.Env) (stream : List (Option (List UInt8)))
+    (pl : Pid → Content) (p : Pid) (hpl : pl p = enc (DL.payload stream))
+    (s : State) (i j : Inode) (hs : s.pc p = .writing i j 0) :
+    ∃ n s', run pl s (List.replicate n (Act.step p)) = some s' ∧ s'.pc p = .writing i j n ∧
+      s'.content j = s.content j ++ enc (DL.run env true stream).2.file ∧
+      s'.part = s.part ∧ s'.dest = s.dest ∧ (∀ q, q ≠ p → s'.pc q = s.pc q) ∧
+      ((∃ m, (DL.run env true stream).1 = .ok m) →
+          n = (pl p).length ∧ ∃ s'', next pl s' (.step p) = some s'' ∧ s''.pc p = .wroteOk i ∧
+            s''.content = s'.content) ∧
+      ∃ s'', next pl s' (.fail p) = some s'' ∧ s''.pc p = .failed i .callback ∧ s''.content = s'.content := by
+  obtain ⟨k, hk⟩ := DL.callback_file_prefix (env := env) true stream {}
+  have hfile : (DL.run env true stream).2.file = (DL.payload stream).take k := by
+    simpa [DL.run] using hk
+  let n := min k (DL.payload stream).length
+  have hlen : (pl p).length = (DL.payload stream).length := by simp [hpl, enc]
+  have htk : (DL.payload stream).take k = (DL.payload stream).take n := by
+    rw [List.take_eq_take_iff]; simp [n]
+  obtain ⟨s', hr, hp, hc, hpart, hdest, _, hoth⟩ :=
+    run_writes (pl := pl) (p := p) (i := i) (j := j) n 0 s hs (by rw [hlen]; simp [n]; exact Nat.min_le_right _ _)
+  refine ⟨n, s', hr, by simpa using hp, ?_, hpart, hdest, hoth, ?_, ?_⟩
+  · rw [hc, hfile, htk, hpl]
+    simp [enc, List.map_take]
+  · rintro ⟨m, hm⟩
+    have h' := DL.callback_ok stream {} m (DL.run env true stream).2 (by rw [← hm]; rfl)
+    have hfull : (DL.run env true stream).2.file = DL.payload stream := by simpa using h'.2.2.2.1
+    have hn : n = (pl p).length := by
+      have := congrArg List.length (hfile.symm.trans hfull)
+      rw [htk] at this
+      simp at this
+      omega
+    refine ⟨hn, ?_⟩
+    have hnone : (pl p)[n]? = none := by simp [hn]
+    have hp' : s'.pc p = .writing i j n := by simpa using hp
+    cases hx : next pl s' (.step p) with
+    | none => simp [next, stepP, hp', hnone] at hx
+    | some s'' =>
+      simp [next, stepP, hp', hnone] at hx
+      subst hx
+      exact ⟨_, rfl, by simp [upd], rfl⟩
+  · have hp' : s'.pc p = .writing i j n := by simpa using hp
+    cases hx : next pl s' (.fail p) with
+    | none => simp [next, failP, hp'] at hx
+    | some s'' =>
+      simp [next, failP, hp'] at hx
+      subst hx
+      exact ⟨_, rfl, by simp [upd], rfl⟩
+
+/-- **End to end for the downloader.** With every creator's payload the bytes of its download stream, in
+every reachable state of the protocol the final path is absent or holds exactly the bytes of the stream of
+the one creator that renamed — the file at the final path IS the download. -/
+theorem C16_download_dest_is_stream (stream : Pid → List (Option (List UInt8))) (s : State)
+    (h : Reachable (fun p => enc (DL.payload (stream p))) s) (c : Content)
+    (hc : s.destContent = some c) :
+    ∃ w, s.winners = [w] ∧ c = enc (DL.payload (stream w)) := by
+  rcases C16_atomic _ s h with ⟨hn, _⟩ | ⟨w, hw, hwin⟩
+  · rw [hn] at hc; simp at hc
+  · rw [hw] at hc
+    exact ⟨w, hwin, (Option.some.inj hc).symm⟩
+
+/-- non-vacuity: a download whose second write fails on disk is a writer that stops after the bytes of the
+first piece and is refused `Ok` -/
+example : (DL.run ⟨fun k => k != 1, fun _ => 0⟩ true [some [1, 2], some [3, 4], some [5]]).1 = .diskWrite ∧
+    (DL.run ⟨fun k => k != 1, fun _ => 0⟩ true [some [1, 2], some [3, 4], some [5]]).2.file = [1, 2] := by
+  decide
+
+
+/-! ## "The contents are written successfully at most once", counted in write callbacks
+
+`C16_at_most_once` counts renames. The statement of C16 (and the judge: `writes_ok`) counts write callbacks
+that returned `Ok` (`okWrites`, a ghost list extended by the transition `writing → wroteOk`). The two differ
+exactly by the attempts that were lost between `Ok` and the rename (`lost`: the creator was killed at
+that point, or its rename failed). -/
+
+/-- **At most one successful write, up to lost attempts.** In every reachable state the number of write
+callbacks that have returned `Ok` is at most one more than the number of attempts lost after their `Ok`
+(killed before the rename / rename failed): each `Ok` was renamed (at most one ever), lost, or is the single
+one about to be renamed. In particular, while no attempt has been lost that way — no kill between `Ok` and
+rename, no rename error — the contents have been written successfully at most once. -/
+theorem C16_written_at_most_once (pl : Pid → Content) (s : State) (h : Reachable pl s) :
+    s.okWrites.length = s.winners.length + s.lost.length + (if s.okAt.isSome then 1 else 0) ∧
+    s.okWrites.length ≤ 1 + s.lost.length ∧
+    (s.lost = [] → s.okWrites.length ≤ 1) := by
+  have hinv := inv_reachable h
+  have ho := oinv_reachable h
+  have key : s.winners.length + (if s.okAt.isSome then 1 else 0) ≤ 1 := by
+    cases hok : s.okAt with
+    | none => rcases hinv.destOk with ⟨_, hw⟩ | ⟨w, j, _, _, hw⟩ <;> simp [hw]
+    | some q =>
+      have hcs := (isWroteOk_eq (ho.k2 q hok)).1
+      have hd := hinv.dest_none_of_inCS hcs
+      rcases hinv.destOk with ⟨_, hw⟩ | ⟨w, j, hd', _, _⟩
+      · simp [hw]
+      · rw [hd] at hd'; simp at hd'
+  have k3 := ho.k3
+  refine ⟨k3, by omega, ?_⟩
+  intro hl
+  rw [hl] at k3
+  simp at k3
+  omega
+
+/-- non-vacuity of the `lost` case: creator 0's rename fails after a good write, creator 1 then writes
+successfully as well — two `Ok`s, one lost, one renamed -/
+example : ((run C16_payload State.init
+    [.step 0, .step 0, .step 0, .step 0, .step 0, .step 0, .step 0, .fail 0, .step 0, .step 0,
+     .step 1, .step 1, .step 1, .step 1, .step 1, .step 1, .step 1, .step 1]).map fun s =>
+    (s.okWrites, s.lost, s.winners, s.pc 0)) = some ([1, 0], [0], [1], .doneErr .rename) := by decide
